@@ -13,6 +13,7 @@
 #include <stdlib.h>
 
 #include "EbEncHandle.h"
+#include "EbVerifHooks.h"
 #include "EbEncDecTasks.h"
 #include "EbEncDecResults.h"
 #include "EbCodingLoop.h"
@@ -315,6 +316,7 @@ EbBool assign_enc_dec_segments(EncDecSegments *segmentPtr, uint16_t *segmentInOu
         taskPtr->input_type = ENCDEC_TASKS_CONTINUE;
         ++segmentPtr->row_array[0].current_seg_index;
         continue_processing_flag = EB_TRUE;
+        SVT_VERIF_EV("seg", segmentPtr, "SegStartMdc", *segmentInOutIndex);
 
         //fprintf(trace, "Start  Pic: %u Seg: %u\n",
         //    (unsigned) ((PictureControlSet*) taskPtr->pcs_wrapper_ptr->object_ptr)->picture_number,
@@ -332,6 +334,7 @@ EbBool assign_enc_dec_segments(EncDecSegments *segmentPtr, uint16_t *segmentInOu
         taskPtr->input_type = ENCDEC_TASKS_CONTINUE;
         ++segmentPtr->row_array[taskPtr->enc_dec_segment_row].current_seg_index;
         continue_processing_flag = EB_TRUE;
+        SVT_VERIF_EV("seg", segmentPtr, "SegStartRow", taskPtr->enc_dec_segment_row, *segmentInOutIndex);
 
         //fprintf(trace, "Start  Pic: %u Seg: %u\n",
         //    (unsigned) ((PictureControlSet*) taskPtr->pcs_wrapper_ptr->object_ptr)->picture_number,
@@ -365,6 +368,8 @@ EbBool assign_enc_dec_segments(EncDecSegments *segmentPtr, uint16_t *segmentInOu
                 //    *segmentInOutIndex);
             }
 
+            SVT_VERIF_EV("seg", segmentPtr, "SegRight", segment_index, segmentPtr->dep_map.dependency_map[right_segment_index],
+                         self_assigned ? (long long)*segmentInOutIndex : -1LL);
             svt_release_mutex(segmentPtr->row_array[row_segment_index].assignment_mutex);
         }
 
@@ -390,6 +395,9 @@ EbBool assign_enc_dec_segments(EncDecSegments *segmentPtr, uint16_t *segmentInOu
                     //    *segmentInOutIndex);
                 }
             }
+            SVT_VERIF_EV("seg", segmentPtr, "SegBL", segment_index, segmentPtr->dep_map.dependency_map[bottom_left_segment_index],
+                         (continue_processing_flag && !self_assigned) ? (long long)*segmentInOutIndex : -1LL,
+                         (long long)feedback_row_index);
             svt_release_mutex(segmentPtr->row_array[row_segment_index + 1].assignment_mutex);
         }
 
@@ -401,6 +409,7 @@ EbBool assign_enc_dec_segments(EncDecSegments *segmentPtr, uint16_t *segmentInOu
             feedback_task_ptr->enc_dec_segment_row = feedback_row_index;
             feedback_task_ptr->pcs_wrapper_ptr     = taskPtr->pcs_wrapper_ptr;
             feedback_task_ptr->tile_group_index = taskPtr->tile_group_index;
+            SVT_VERIF_EV("seg", segmentPtr, "SegFeedback", feedback_row_index);
             svt_post_full_object(wrapper_ptr);
         }
 
@@ -408,6 +417,7 @@ EbBool assign_enc_dec_segments(EncDecSegments *segmentPtr, uint16_t *segmentInOu
 
     default: break;
     }
+    SVT_VERIF_EV("seg", segmentPtr, "SegRet", continue_processing_flag == EB_TRUE, *segmentInOutIndex);
 
     return continue_processing_flag;
 }
@@ -4639,6 +4649,7 @@ void *mode_decision_kernel(void *input_ptr) {
                         build_starting_cand_block_array(scs_ptr, pcs_ptr, context_ptr->md_context, sb_index);
                     // Initialize avail_blk_flag to false
                     init_avail_blk_flag(scs_ptr, context_ptr->md_context);
+                    SVT_VERIF_EV("seg", segments_ptr, "SbStart", segment_index, x_sb_index, y_sb_index);
 
                     // [PD_PASS_2] Mode Decision - Obtain the final partitioning decision using more accurate info
                     // than previous stages.  Reduce the total number of partitions to 1.
@@ -4672,6 +4683,7 @@ void *mode_decision_kernel(void *input_ptr) {
                     av1_encode_decode(
                         scs_ptr, pcs_ptr, sb_ptr, sb_index, sb_origin_x, sb_origin_y, context_ptr);
 #endif
+                    SVT_VERIF_EV("seg", segments_ptr, "SbEnd", segment_index, x_sb_index, y_sb_index);
 
                     context_ptr->coded_sb_count++;
                     if (pcs_ptr->parent_pcs_ptr->reference_picture_wrapper_ptr != NULL)
